@@ -60,6 +60,12 @@ fn lt_major_only_tuples(ast: &RangeAst) -> Vec<(u64, u64, u64)> {
 }
 
 pub fn check_case(c: &Case, st: &mut Stats) -> Result<(), Failure> {
+    for (open, hit) in [(F_WILD, c.ast.has_wildcard_misplaced()), (F_HYPHEN, c.ast.has_lowerless_hyphen()), (F_EMPTY, c.ast.has_empty_alternative())] {
+        if hit && findings::is_open(open) {
+            st.known(open);
+            return Ok(());
+        }
+    }
     let text = c.ast.render();
     let sets = npm::desugar(&c.ast);
     let r = match guard(|| Range::parse(&text)) {
